@@ -1,7 +1,7 @@
-(* Extraction of the cycle-level models of MVP-1/2 (and MVP-3, 4, 5, 6.0, 6.1, 6.2, 6.3, 8.0) for the
+(* Extraction of the cycle-level models of MVP-1/2 (and MVP-3, 4, 5, 6.0, 6.1, 6.2, 6.3, 7.0, 7.1, 8.0) for the
    correspondence check: (cycles, registers, memory) must be equal to what the
    Go implementation returns. *)
 From Coq Require Import Extraction ExtrOcamlBasic ZArith List.
-From Maj Require Import Base.Outcome Base.GoTypes Isa.Spec Isa.Embed Isa.Seq Isa.Refine Mvp.Mvp12 Mvp.Mvp3 Mvp.Mvp4 Mvp.Mvp5 Mvp.Mvp60 Mvp.Mvp61 Mvp.Mvp62 Mvp.Mvp63 Mvp.Mvp80.
+From Maj Require Import Base.Outcome Base.GoTypes Isa.Spec Isa.Embed Isa.Seq Isa.Refine Mvp.Mvp12 Mvp.Mvp3 Mvp.Mvp4 Mvp.Mvp5 Mvp.Mvp60 Mvp.Mvp61 Mvp.Mvp62 Mvp.Mvp63 Mvp.Mvp70 Mvp.Mvp71 Mvp.Mvp80.
 Extraction Language OCaml.
-Extraction "mvp_oracle.ml" mvp12_run mvp3_run mvp4_run mvp5_run mvp60_run mvp60_run_snap mvp61_run mvp61_run_snap mvp62_run mvp62_run_snap mvp63_run mvp63_run_snap mvp80_run mvp80_run_snap pord_policy ord_policy perm_of instr_of lookup mk_arch.
+Extraction "mvp_oracle.ml" mvp12_run mvp3_run mvp4_run mvp5_run mvp60_run mvp60_run_snap mvp61_run mvp61_run_snap mvp62_run mvp62_run_snap mvp63_run mvp63_run_snap mvp70_run mvp70_run_snap mvp71_run mvp71_run_snap mvp80_run mvp80_run_snap pord_policy ord_policy perm_of instr_of lookup mk_arch.
